@@ -3,6 +3,7 @@ package c02
 import (
 	"fmt"
 	"math/rand/v2"
+	"net/netip"
 	"strconv"
 	"strings"
 	"sync"
@@ -98,6 +99,12 @@ func (c *checker) historyNames(names []string, rng *rand.Rand) {
 	both := func(s string) {
 		c.check(pHost, s, s, nil, nil)
 		c.check(pLabel, s, s, nil, nil)
+	}
+	for _, v := range c03.LimitPairs() {
+		both(v.Base)
+		both(v.Alike)
+		both("y" + v.Alike + "y") // a fresh spelling, look-alike first
+		both("y" + v.Base + "y")
 	}
 	for _, s := range names {
 		both(s)
@@ -209,4 +216,37 @@ func stress(args []string) error {
 		}
 	}
 	return res.Close(map[string]any{"stress_calls": calls.Load(), "stress_units": nu})
+}
+
+// coldIP turns remembered texts into cold-start inputs; the expected verdicts
+// are those of the reference parsers.
+func coldIP(acc, rej []string, n int) (out []c03.ColdLine) {
+	add := func(pool []string, k int) {
+		for i := 0; i < len(pool) && i < k; i++ {
+			s := pool[i]
+			_, e1 := netip.ParseAddr(s)
+			_, e2 := netip.ParseAddrPort(s)
+			out = append(out, c03.ColdLine{K: "ip", Q: strconv.Quote(s), A: e1 == nil, P: e2 == nil})
+		}
+	}
+	add(acc, n/2)
+	add(rej, n-n/2)
+	return out
+}
+
+// coldNames does the same for names: idna.ToASCII + the reference grammar.
+func coldNames(acc, rej []string, n int) (out []c03.ColdLine) {
+	add := func(pool []string, k int) {
+		for i := 0; i < len(pool) && i < k; i++ {
+			s := pool[i]
+			if len(s) > 300 {
+				continue
+			}
+			_, _, want := c03.Expected(s)
+			out = append(out, c03.ColdLine{K: "name", Q: strconv.Quote(s), Host: want[0], Srv: want[1], Dom: want[2]})
+		}
+	}
+	add(acc, n/2)
+	add(rej, n-n/2)
+	return out
 }
